@@ -25,7 +25,11 @@ Binding (the real code is executed, TLC's values decide)
   (vi)  part F: the documented truncated-power-law superposition with lower truncation and
         rescale: correlation = wup * rho0(.; lu) - wlow * rho0(.; ll) with TLC's exact weights,
         and the bounds mode(r; ll) <= correlation(r) <= mode(r; lu) of an average of modes, on
-        the lag grid, a dyadic ladder of small lags and the far tail.
+        the lag grid, a dyadic ladder of small lags and the far tail;
+  (vii) part G: Matern with nu = p + 1/2 (p = 0..3): the four functions at r = z*len/(rescale*sqrt(nu))
+        equal P_p(z) * exp(-z) with TLC's rational P_p(z) and exp(-z) = Exponential.correlation(z);
+        nu = 1/2 equals the Exponential model of length len/sqrt(nu);
+  (viii) continuity in the shape parameters at integer / half-integer values (neighbours at -+2^-12).
 """
 PROPERTIES = ("C03",)
 
@@ -147,6 +151,9 @@ def mc_text(tier, rng):
         "TplLen": "{<<3, 2>>, <<2, 1>>, <<3, 1>>, <<4, 1>>, <<6, 1>>}",
         "TplRes": "{<<1, 1>>, <<2, 1>>, <<1, 2>>}",
         "TplH2": "{<<1, 1>>, <<1, 2>>, <<3, 2>>}",
+        # part G: Matern with nu = p + 1/2 at rational z
+        "HalfP": "{0, 1, 2, 3}",
+        "HalfZ": "{<<0, 1>>, <<1, 8>>, <<1, 4>>, <<1, 2>>, <<1, 1>>, <<3, 2>>, <<2, 1>>, <<3, 1>>, <<5, 1>>, <<8, 1>>}",
     }
     mod = "---- MODULE MC_Derive ----\nEXTENDS Derive\n"
     mod += "".join("Mc%s == %s\n" % kv for kv in defs.items()) + "====\n"
@@ -1029,6 +1036,122 @@ def task_tpl(job):
     return col.result()
 
 
+# ---------------------------------------------------------------------------
+# part G: Matern with half-integer shape, and continuity in the shape parameters
+
+HALF_TOL = 1e-11
+
+
+def task_half(job):
+    """Matern(nu = p + 1/2): correlation(r) = P_p(z) * exp(-z) at r = z*len_scale/(rescale*sqrt(nu)); P_p(z) is
+    TLC's rational, exp(-z) the Exponential model's correlation at the lag z."""
+    import gstools as gs
+
+    (p,) = job
+    col = Collect()
+    cases = [c for c in _G["half"] if c["p"] == p]
+    nu = qf(cases[0]["nu"])
+    z = np.array([qf(c["z"]) for c in cases])
+    poly = np.array([qf(c["poly"]) for c in cases])
+    with warnings.catch_warnings():
+        warnings.simplefilter("ignore")
+        E = np.asarray(gs.Exponential(dim=1, len_scale=1.0, rescale=1.0).correlation(z), dtype=float)
+        ref = poly * E
+        i0 = 0
+        for var in (1.0, 2.0):
+            for nug in (0.0, 1.0):
+                for L in (0.5, 1.0, 2.0):
+                    for res in (None, 2.0, 0.5):
+                        i0 += 1
+                        kw = dict(dim=1 + i0 % 3, var=var, nugget=nug, len_scale=L, nu=nu)
+                        if res is not None:
+                            kw["rescale"] = res
+                        m = gs.Matern(**kw)
+                        h = z / math.sqrt(nu)                       # sqrt(nu) * h = z
+                        r = h * L / float(m.rescale)
+                        checks = [("cor", "cor(z/sqrt(nu)) = P(z)*exp(-z)", m.cor(h), ref),
+                                  ("correlation", "correlation(r) = P(z)*exp(-z)", m.correlation(r), ref),
+                                  ("covariance", "covariance(r) = var*P(z)*exp(-z)", m.covariance(r), var * ref),
+                                  ("variogram", "variogram(r) = var*(1 - P(z)*exp(-z)) + nugget", m.variogram(r), var * (1.0 - ref) + nug)]
+                        if p == 0:
+                            # nu = 1/2 is the Exponential model with the length scale len_scale / sqrt(nu)
+                            e = gs.Exponential(dim=kw["dim"], var=var, nugget=nug, len_scale=L, rescale=float(m.rescale) * math.sqrt(nu))
+                            rg = np.arange(0, 13) / 8.0 * L
+                            checks.append(("exponential", "Matern(nu=1/2).variogram = Exponential(rescale*sqrt(1/2)).variogram",
+                                           m.variogram(rg), e.variogram(rg)))
+                        col.cases += len(cases)
+                        col.keys += len(cases)
+                        for key, what, got, exp in checks:
+                            got = np.asarray(got, dtype=float)
+                            bad = differs(got, exp, HALF_TOL)
+                            col.evals += got.size
+                            if bad.any():
+                                i = int(np.flatnonzero(bad)[0])
+                                col.violation("maternhalf:nu=%g:%s" % (nu, key),
+                                              "Matern(%s): %s fails at z = %r (P = %s from TLC): %r vs %r"
+                                              % (kw, what, float(z[min(i, len(z) - 1)]),
+                                                 "%d/%d" % tuple(cases[min(i, len(cases) - 1)]["poly"]), float(got[i]), float(np.asarray(exp)[i])),
+                                              {"class": "Matern", "kwargs": kw, "relation": what, "z": z.tolist(),
+                                               "lags": (h if key == "cor" else r).tolist(), "lhs": got.tolist(),
+                                               "rhs": np.asarray(exp, dtype=float).tolist(), "case": _pubst(cases[min(i, len(cases) - 1)])})
+        col.samples.append({"class": "Matern", "nu": nu, "z": z[3:7].tolist(),
+                            "P(z) exact (TLC)": ["%d/%d" % tuple(c["poly"]) for c in cases[3:7]],
+                            "correlation observed": np.asarray(m.correlation(r), dtype=float)[3:7].tolist(),
+                            "P(z)*Exponential.correlation(z)": ref[3:7].tolist()})
+    return col.result()
+
+
+# interior "special" values of the shape parameters (integers, half-integers), dimension 1
+SHAPE_SPECIAL = {
+    "Matern": ("nu", (0.5, 1.0, 1.5, 2.0, 2.5, 3.0, 3.5), {}),
+    "Stable": ("alpha", (0.5, 1.0, 1.5), {}),
+    "Rational": ("alpha", (1.0, 1.5, 2.0), {}),
+    "Integral": ("nu", (1.0, 2.0, 3.0), {}),
+    "SuperSpherical": ("nu", (0.5, 1.0, 1.5, 2.0), {}),
+    "JBessel": ("nu", (0.5, 1.0, 1.5, 2.0), {}),
+    "TPLSimple": ("nu", (1.5, 2.0, 2.5, 3.0), {}),
+    "TPLStable": ("alpha", (0.5, 1.0, 1.5), {"hurst": 0.5}),
+    "TPLGaussian": ("hurst", (0.25, 0.5, 0.75), {}),
+    "TPLExponential": ("hurst", (0.25, 0.5, 0.75), {"len_low": 0.5}),
+}
+
+
+def task_shape(job):
+    """The documented forms are smooth in their shape parameter: the value at a special shape s0 lies
+    between / next to its neighbours s0 -+ 2^-12:  |f(s0) - mean| <= |f(s0+e) - f(s0-e)| + 1e-6."""
+    import gstools as gs
+
+    (name,) = job
+    col = Collect()
+    optname, vals, extra = SHAPE_SPECIAL[name]
+    eps = 2.0 ** -12
+    L = 1.0
+    r = np.concatenate([np.arange(0, 13) / 8.0, [2.0 ** -10, 2.0, 4.0, 16.0]]) * L
+    cls = getattr(gs, name)
+    with warnings.catch_warnings():
+        warnings.simplefilter("ignore")
+        for s0 in vals:
+            for res in (None, 2.0):
+                kw = dict(dim=1, var=1.0, nugget=0.0, len_scale=L, **extra)
+                if res:
+                    kw["rescale"] = res
+                f = [np.asarray(cls(**dict(kw, **{optname: s})).correlation(r), dtype=float) for s in (s0 - eps, s0, s0 + eps)]
+                col.cases += 1
+                col.keys += 1
+                col.evals += len(r)
+                bad = ~(np.abs(f[1] - 0.5 * (f[0] + f[2])) <= np.abs(f[2] - f[0]) + 1e-6)
+                if bad.any():
+                    i = int(np.flatnonzero(bad)[0])
+                    col.violation("shape-continuity:%s:%s" % (name, optname),
+                                  "%s(%s): correlation(%r) jumps at %s = %r: %r, but %r and %r at %s -+ 2^-12"
+                                  % (name, kw, float(r[i]), optname, s0, float(f[1][i]), float(f[0][i]), float(f[2][i]), optname),
+                                  {"class": name, "kwargs": kw, "shape": optname, "value": s0, "eps": eps, "lags": r.tolist(),
+                                   "below": f[0].tolist(), "at": f[1].tolist(), "above": f[2].tolist()})
+        col.samples.append({"class": name, "shape": optname, "values": list(vals), "eps": eps,
+                            "correlation(1.0) below/at/above last value": [float(x[8]) for x in f]})
+    return col.result()
+
+
 def _pubst(st):
     return json.loads(json.dumps(st, default=list))
 
@@ -1041,7 +1164,7 @@ def _dispatch(job):
     kind, payload = job
     try:
         return kind, {"user": task_user, "poly": task_poly, "relation": task_relation, "int": task_int,
-                      "hist": task_hist, "tpl": task_tpl}[kind](payload)
+                      "hist": task_hist, "tpl": task_tpl, "half": task_half, "shape": task_shape}[kind](payload)
     except RecursionError:
         # evaluation of a model function does not terminate: the derivation of the missing
         # functions is cyclic (C03: every function bottoms out in a defined one)
@@ -1174,6 +1297,10 @@ def run(pid, tier, seed, replay=None):
         "TPL / Integral values themselves (exponential integral) are not compared with an external reference; small lags are examined "
         "down to 2^-20 of the upper truncation scale through structural relations only (superposition identity, mode bounds, "
         "monotonicity); below that the implementation treats the lag as zero (numeric accuracy, not examined; see aux_numeric)",
+        "Matern with half-integer nu is decided through exp(-z) * P(z) with z = sqrt(nu)*rescale*r/len_scale (exact polynomial from TLC, "
+        "exp(-z) supplied by the Exponential model, lags z/sqrt(nu) mapped with a correctly rounded float sqrt, 1e-11); other nu only "
+        "through continuity in the shape parameter: |f(s0) - mean of neighbours| <= |f(s0+e) - f(s0-e)| + 1e-6 at e = 2^-12, a smoothness "
+        "relation between implementation outputs (special-cased shape values), not a value oracle",
         "integral scale along histories: kappa(shape) is measured on a freshly constructed unit model of the same code, so the history "
         "relation decides staleness / coupling, not the value of kappa; quadrature classes (Spherical, SuperSpherical) at 1e-6",
         "the rotation convention used for *_spatial (planes xy, xz, yz; alternating signs; first angle first) is the "
@@ -1200,12 +1327,14 @@ def run(pid, tier, seed, replay=None):
              dict(workers=1, timeout=1800, dump=("dot", sc.path("hist1.dot")))),
             ("tpl", sc, "MC_Derive", cfg_part(cfg, "InitTpl", "Stutter", ["TplSound"]),
              dict(workers=1, timeout=600, dump=("states", sc.path("tpl.dump")))),
+            ("maternhalf", sc, "MC_Derive", cfg_part(cfg, "InitHalf", "Stutter", ["HalfSound"]),
+             dict(workers=1, timeout=600, dump=("states", sc.path("half.dump")))),
         ]
         t0 = time.time()
-        results = tlc.run_many(jobs, parallel=7)
+        results = tlc.run_many(jobs, parallel=8)
         print("TLC: %d jobs in %.1fs" % (len(jobs), time.time() - t0))
         design_ok = True
-        for key in ("graph", "variant", "poly", "intscale", "inthist2", "inthist1", "tpl"):
+        for key in ("graph", "variant", "poly", "intscale", "inthist2", "inthist1", "tpl", "maternhalf"):
             r = results[key]
             tlc.must_pass(r, "Derive." + key)
             rep.add_tlc("Derive.%s" % key, r)
@@ -1222,6 +1351,7 @@ def run(pid, tier, seed, replay=None):
         pstates = tlc.read_state_dump(sc.path("poly.dump"))
         istates = tlc.read_state_dump(sc.path("int.dump"))
         tstates = tlc.read_state_dump(sc.path("tpl.dump"))
+        hstates = tlc.read_state_dump(sc.path("half.dump"))
         hist = {}
         for nopt in (1, 2):
             nodes, edges, inits = tlc.read_dot(sc.path("hist%d.dot" % nopt))
@@ -1258,6 +1388,7 @@ def run(pid, tier, seed, replay=None):
     rng.shuffle(ints)
     tpls = sorted((st["vc"] for st in tstates), key=lambda c: tlaval.to_tla(c))
     _G.update(tier=tier, kmax=kmax, ground=ground, poly=poly, polyraw=polyraw, groups=groups, int=ints, hist=hist, tpl=tpls,
+              half=sorted((st["vc"] for st in hstates), key=lambda c: (c["p"], qf(c["z"]))),
               nspatial_value=40 if big else 6, nspatial_rel=1200 if big else 150)
     work = []
     for D in sorted(verdict, key=lambda s: (len(s), sorted(s))):
@@ -1284,11 +1415,15 @@ def run(pid, tier, seed, replay=None):
             work.append(("hist", (name, share[lo:lo + 150], rng.randrange(2**31))))
     for ci in range(len(TPL_CLASSES)):
         work.append(("tpl", (ci, 0, len(tpls))))
+    for pp in sorted({c["p"] for c in _G["half"]}):
+        work.append(("half", (pp,)))
+    for name in SHAPE_SPECIAL:
+        work.append(("shape", (name,)))
     only = os.environ.get("VERIF_ONLY")
     if only:
         work = [w_ for w_ in work if w_[0] in only.split(",")]
     # long tasks first
-    work.sort(key=lambda j: {"relation": 0, "hist": 1, "user": 2, "poly": 3, "int": 4, "tpl": 5}[j[0]])
+    work.sort(key=lambda j: {"relation": 0, "hist": 1, "user": 2, "poly": 3, "int": 4, "tpl": 5, "half": 6, "shape": 7}[j[0]])
     import multiprocessing as mp
 
     t0 = time.time()
@@ -1304,10 +1439,10 @@ def run(pid, tier, seed, replay=None):
             for msg in res["drift"]:
                 rep.drift_msg(msg)
             for s in res["samples"]:
-                cap = {"user": 3, "poly": 2, "relation": 2, "int": 1, "hist": 2, "tpl": 2}[kind]
+                cap = {"user": 3, "poly": 2, "relation": 2, "int": 1, "hist": 2, "tpl": 2, "half": 2, "shape": 1}[kind]
                 s = _jsonable_sample(dict(s, part=kind))
                 if s not in rep.samples and sum(1 for x in rep.samples if x.get("part") == kind) < cap:
-                    rep.sample(s, cap=16)
+                    rep.sample(s, cap=20)
     print("replay: %d tasks in %.1fs: %s" % (len(work), time.time() - t0, per_kind))
     base = 0
     for kind in sorted(per_kind):
